@@ -153,7 +153,7 @@ def classify(r, ignore=None):
 def run_harnesses(prop, harnesses, jobs, timeout_s, mem_gb, stubbing=True, tag="k", ignore=None):
     """Runs the given harnesses (full names `module::fn`) in ONE cargo-kani invocation with its own target dir."""
     sync_lockfile()
-    target = os.path.join(BUILD, "kani-%s" % prop)
+    target = os.path.join(BUILD, "kani-target")      # one target dir for all properties: the harness crate + /repo are compiled once (cargo locks it)
     cmd = ["cargo", "kani", "--target-dir", target, "--exact"]
     if stubbing:
         cmd += ["-Z", "stubbing"]
@@ -181,7 +181,7 @@ def detail_run(prop, harness, timeout_s, mem_gb, stubbing=True):
     """Re-runs ONE failing harness in regular format with concrete playback to collect the failed checks
     (description + location) and the generated replay test."""
     sync_lockfile()
-    target = os.path.join(BUILD, "kani-%s" % prop)
+    target = os.path.join(BUILD, "kani-target")      # one target dir for all properties: the harness crate + /repo are compiled once (cargo locks it)
     cmd = ["cargo", "kani", "--target-dir", target, "--exact", "--harness", harness,
            "-Z", "concrete-playback", "--concrete-playback=print"]
     if stubbing:
